@@ -41,6 +41,14 @@ def structured(seed, i):
         pos = k  # a `last() ->` component comes last
     comps = markers[:pos] + [ctl] + markers[pos:]
     scan = r.choice(["*", "*", f"{r.randint(0, 2)}*", f"{r.randint(0, 2)}-{r.randint(2, len(recs))}"])
+    if kind == "advance" and r.random() < 0.5 and len(recs) >= 4:
+        # an advance that carries the run over the last line the scan selects: the run ends there all the same, and a last() component
+        # (which also fires on a trailing blank line) must not see any later line
+        hi = r.randint(1, len(recs) - 2)
+        scan = f"{r.randint(0, min(1, hi))}-{hi}"
+        if recs[-1]:
+            recs.append([])
+        comps = comps + [r.choice(['last.nocontrib() -> @l = line_number()', 'last() -> push("lastseen", line_number())'])]
     return {"recs": recs, "scan": scan, "match": " ".join(comps), "and": r.random() < 0.8, "profile": "C13-structured",
             "kind": kind, "pos": pos, "k": k, "fire": fire}
 
